@@ -12,10 +12,13 @@
 package c12
 
 import (
+	"errors"
 	"fmt"
 
+	"github.com/nspcc-dev/neo-go/pkg/core/interop/interopnames"
 	"github.com/nspcc-dev/neo-go/pkg/crypto/hash"
 	"github.com/nspcc-dev/neo-go/pkg/smartcontract/callflag"
+	"github.com/nspcc-dev/neo-go/pkg/smartcontract/nef"
 	"github.com/nspcc-dev/neo-go/pkg/smartcontract/scparser"
 	"github.com/nspcc-dev/neo-go/pkg/util"
 	"github.com/nspcc-dev/neo-go/pkg/vm"
@@ -32,30 +35,102 @@ func xid(idx, nargs, mode int) []byte { return []byte{byte(idx), byte(nargs), by
 type loaded struct {
 	script []byte
 	hash   util.Uint160
+	// the same program laid out like a compiled contract (static initialisation
+	// in an _initialize function at offset 0, the method after it), for LoadNEFMethod
+	nefScript []byte
+	nefHash   util.Uint160
+	methodOff int
 }
 
+// What the loader charges for a load (as the contract-call interop charges its
+// price): through the VM's own AddDatoshi/AddPicoGas, mirrored into the
+// harness's sum of executed prices.
+const (
+	loadDatoshi = 7
+	loadPico    = 1 // so that a limit of need-1 datoshi is missed by exactly one picoGAS when the load is the last thing charged
+)
+
+const (
+	sysInterop = 0xF0 // push an Interop item
+	sysFreeze  = 0xF1 // replace the top item by an immutable deep copy
+)
+
 // loader returns the SYSCALL handler for a table of loadable scripts.
-// mode 0: LoadScriptWithHash (one return value expected, own stack);
-// mode 1: LoadScriptWithFlags (any number of return values; shares the
-// caller's stack object when that is empty).
-func loader(tbl []loaded) func(v *vm.VM, id uint32) error {
+//
+//	mode 0  LoadScriptWithHash (one return value expected, own stack)
+//	mode 1  LoadScriptWithFlags (any number of return values; shares the caller's
+//	        stack object when that is empty)
+//	mode 2  LoadDynamicScript (DynamicOnUnload: no value -> Null, more than one -> error)
+//	mode 3  LoadNEFMethod, one return value, static initialisation in an
+//	        _initialize function, onUnload and onUnloaded callbacks set
+//	mode 4  LoadNEFMethod whose onUnload fails when the context is unloaded by
+//	        an exception (what a call from a native contract does)
+func loader(tbl []loaded, own *int64) func(v *vm.VM, id uint32) error {
 	return func(v *vm.VM, id uint32) error {
 		idx, nargs, mode := int(id&0xff), int(id>>8&0xff), int(id>>16&0xff)
-		if id>>24 != xMagic || idx >= len(tbl) || mode > 1 {
+		if id>>24 != xMagic {
 			return fmt.Errorf("unknown syscall %#x", id)
+		}
+		switch idx {
+		case sysInterop:
+			v.Estack().PushItem(stackitem.NewInterop(&idx))
+			return nil
+		case sysFreeze:
+			v.Estack().PushItem(stackitem.DeepCopy(v.Estack().Pop().Item(), true))
+			return nil
+		}
+		if idx >= len(tbl) || mode > 4 {
+			return fmt.Errorf("unknown syscall %#x", id)
+		}
+		*own += loadDatoshi*picoPerDat + loadPico
+		if err := v.AddDatoshi(loadDatoshi); err != nil {
+			return err
+		}
+		if err := v.AddPicoGas(loadPico); err != nil {
+			return err
 		}
 		args := make([]stackitem.Item, nargs)
 		for i := range args {
 			args[i] = v.Estack().Pop().Item()
 		}
-		if mode == 0 {
-			v.LoadScriptWithHash(tbl[idx].script, tbl[idx].hash, callflag.All)
-		} else {
-			v.LoadScriptWithFlags(tbl[idx].script, callflag.All)
+		l := tbl[idx]
+		switch mode {
+		case 0:
+			v.LoadScriptWithHash(l.script, l.hash, callflag.All)
+		case 1:
+			v.LoadScriptWithFlags(l.script, callflag.All)
+		case 2:
+			v.LoadDynamicScript(l.script, callflag.All)
+		case 3:
+			v.LoadNEFMethod(&nef.File{Script: l.nefScript}, nil, v.GetCurrentScriptHash(), l.nefHash, callflag.All, true, l.methodOff, 0,
+				func(*vm.VM, *vm.Context, bool) error { return nil }, func(*vm.VM) {}, false)
+		case 4:
+			v.LoadNEFMethod(&nef.File{Script: l.nefScript}, nil, v.GetCurrentScriptHash(), l.nefHash, callflag.All, true, l.methodOff, 0,
+				func(_ *vm.VM, _ *vm.Context, commit bool) error {
+					if !commit {
+						return errors.New("unhandled exception")
+					}
+					return nil
+				}, nil, false)
 		}
 		for i := len(args) - 1; i >= 0; i-- {
 			v.Estack().PushItem(args[i])
 		}
+		return nil
+	}
+}
+
+// tokenLoader is the CALLT handler: token id = index of the script, loaded like mode 0.
+func tokenLoader(v *vm.VM, tbl []loaded, own *int64) func(id int32) error {
+	return func(id int32) error {
+		if int(id) >= len(tbl) {
+			return fmt.Errorf("unknown token %d", id)
+		}
+		*own += loadDatoshi * picoPerDat
+		if err := v.AddDatoshi(loadDatoshi); err != nil {
+			return err
+		}
+		v.LoadScriptWithHash(tbl[id].script, tbl[id].hash, callflag.All)
 		return nil
 	}
 }
@@ -67,7 +142,7 @@ type calleeSpec struct {
 	field    int  // static 0: 0 unset, 1 primitive, 2 fresh compound, 3 the argument
 	depth    int  // nested CALLs before the end
 	hold     bool // every frame keeps static 0's value in a local
-	end      int  // 0 THROW primitive, 1 THROW static 0, 2 RET, 3 third script throws, 4 third script returns then THROW, 5 third script returns then RET
+	end      int  // 0 THROW primitive, 1 THROW static 0, 2 RET one value, 3 third script throws, 4 third script returns then THROW, 5 third script returns then RET, 6 RET no value, 7 RET two values
 	leftover bool // two items are left on the callee's own stack when it throws
 }
 
@@ -89,7 +164,9 @@ const (
 	idxThirdReturns
 )
 
-func (c calleeSpec) script() []byte {
+// script builds the callee; nefStyle puts a RET after the static initialisation
+// (which then is the _initialize function) and returns the offset of the method.
+func (c calleeSpec) script(nefStyle bool) (code []byte, methodOff int) {
 	a := &asm{}
 	a.op(opcode.INITSSLOT)
 	a.raw(byte(c.nStatic))
@@ -104,6 +181,10 @@ func (c calleeSpec) script() []byte {
 	if c.nStatic > 1 {
 		a.op(opcode.PUSHT, opcode.STSFLD)
 		a.raw(byte(c.nStatic - 1))
+	}
+	if nefStyle {
+		a.op(opcode.RET)
+		methodOff = a.pos()
 	}
 	frames := make([]int, c.depth)
 	for i := range frames {
@@ -145,9 +226,20 @@ func (c calleeSpec) script() []byte {
 			a.op(opcode.SYSCALL)
 			a.raw(xid(idxThirdReturns, 0, 0)...)
 			a.op(opcode.RET)
+		case 6:
+			a.op(opcode.RET)
+		case 7:
+			a.op(opcode.PUSH3, opcode.NEWARRAY0, opcode.RET)
 		}
 	}
-	return a.bytes()
+	return a.bytes(), methodOff
+}
+
+func (c calleeSpec) loaded() loaded {
+	l := loaded{hash: util.Uint160{1}, nefHash: util.Uint160{5}}
+	l.script, _ = c.script(false)
+	l.nefScript, l.methodOff = c.script(true)
+	return l
 }
 
 func thirdScript(throws bool) []byte {
@@ -182,7 +274,7 @@ func calleeSpecs() []calleeSpec {
 		for field := 0; field <= 3; field++ {
 			for depth := 0; depth <= 2; depth++ {
 				for _, hold := range []bool{false, true} {
-					for end := 0; end <= 5; end++ {
+					for end := 0; end <= 7; end++ {
 						out = append(out, calleeSpec{n, field, depth, hold, end, false})
 						if end == 0 || end == 4 {
 							out = append(out, calleeSpec{n, field, depth, hold, end, true})
@@ -200,9 +292,9 @@ func calleeSpecs() []calleeSpec {
 type callerSpec struct {
 	hold      int  // 0 nothing, 1 primitive on the stack, 2 compound on the stack, 3 compound in a static of the caller
 	finally   bool // TRY with a finally block too
-	mode      int  // load mode of the main callee
+	mode      int  // load mode of the main callee (see loader)
 	reps      int  // 1..9 repetitions of the try block
-	alternate bool // every second repetition loads the other callee
+	alternate bool // every second repetition loads the other callee, through CALLT
 }
 
 func (c callerSpec) String() string {
@@ -228,8 +320,8 @@ func (c callerSpec) script(passArg bool) []byte {
 		}
 		a.try(opcode.TRY, cl, fl)
 		if c.alternate && r%2 == 1 {
-			a.op(opcode.SYSCALL)
-			a.raw(xid(idxOther, 0, 0)...)
+			a.op(opcode.CALLT)
+			a.raw(idxOther, 0)
 		} else {
 			n := 0
 			if passArg { // the held compound if there is one, otherwise a fresh one
@@ -263,9 +355,12 @@ func (c callerSpec) script(passArg bool) []byte {
 
 func callerSpecs(reps []int) []callerSpec {
 	var out []callerSpec
-	for hold := 0; hold <= 3; hold++ {
-		for _, fin := range []bool{false, true} {
-			for mode := 0; mode <= 1; mode++ {
+	for mode := 0; mode <= 4; mode++ {
+		for hold := 0; hold <= 3; hold++ {
+			for _, fin := range []bool{false, true} {
+				if mode >= 2 && (fin || hold == 1 || hold == 3) {
+					continue // the unload-callback modes: fewer caller shapes
+				}
 				for _, r := range reps {
 					for _, alt := range []bool{false, true} {
 						if alt && r == 1 {
@@ -280,12 +375,63 @@ func callerSpecs(reps []int) []callerSpec {
 	return out
 }
 
+// ---- special pairs ------------------------------------------------------------------
+
+type xSpecial struct {
+	name   string
+	caller []byte
+	main   []byte // the loadable script number 0
+}
+
+func xSpecials() []xSpecial {
+	mk := func(f func(a *asm)) []byte { a := &asm{}; f(a); return a.bytes() }
+	load := func(a *asm, nargs, mode int) { a.op(opcode.SYSCALL); a.raw(xid(idxMain, nargs, mode)...) }
+	ret1 := mk(func(a *asm) { a.op(opcode.PUSH1, opcode.RET) })
+	return []xSpecial{
+		{"pointer-of-the-caller-called-in-the-callee", mk(func(a *asm) {
+			l := a.newLabel()
+			a.jmp(opcode.PUSHA, l)
+			load(a, 1, 0)
+			a.here(l)
+			a.op(opcode.RET)
+		}), mk(func(a *asm) { a.op(opcode.CALLA, opcode.PUSH1, opcode.RET) })},
+		{"pointer-of-the-callee-returned-and-called", mk(func(a *asm) { load(a, 0, 0); a.op(opcode.CALLA) }),
+			mk(func(a *asm) { l := a.newLabel(); a.here(l); a.jmp(opcode.PUSHA, l); a.op(opcode.RET) })},
+		{"load-is-the-last-charge", mk(func(a *asm) { load(a, 0, 1) }), mk(func(a *asm) { a.op(opcode.RET) })},
+		{"unknown-syscall", mk(func(a *asm) { a.op(opcode.NEWARRAY0, opcode.SYSCALL); a.raw(1, 2, 3, 4) }), ret1},
+		{"known-syscall-name-the-handler-rejects", mk(func(a *asm) {
+			a.op(opcode.NEWARRAY0, opcode.SYSCALL)
+			a.raw(binaryLE(interopnames.ToID([]byte(interopnames.SystemRuntimePlatform)))...)
+		}), ret1},
+		{"unknown-script-index", mk(func(a *asm) { a.op(opcode.SYSCALL); a.raw(xid(9, 0, 0)...) }), ret1},
+		{"unknown-token", mk(func(a *asm) { a.op(opcode.NEWMAP, opcode.CALLT); a.raw(9, 0) }), ret1},
+		{"token-in-a-loop-until-the-depth-limit", mk(func(a *asm) { a.op(opcode.CALLT); a.raw(0, 0) }), mk(func(a *asm) { a.op(opcode.CALLT); a.raw(0, 0) })},
+		{"load-in-a-loop-until-the-item-limit", mk(func(a *asm) { a.op(opcode.NEWARRAY0); load(a, 1, 1) }),
+			mk(func(a *asm) { a.op(opcode.DUP, opcode.DUP); load(a, 1, 1) })},
+		{"interop-item-and-immutable-copies-across-scripts", mk(func(a *asm) {
+			a.op(opcode.SYSCALL)
+			a.raw(xid(sysInterop, 0, 0)...)
+			a.op(opcode.DUP, opcode.PUSH2, opcode.PACK, opcode.DUP, opcode.SYSCALL)
+			a.raw(xid(sysFreeze, 0, 0)...)
+			load(a, 2, 0)
+		}), mk(func(a *asm) {
+			a.op(opcode.INITSSLOT)
+			a.raw(2)
+			a.op(opcode.STSFLD0, opcode.DUP, opcode.STSFLD1, opcode.LDSFLD0, opcode.EQUAL, opcode.RET)
+		})},
+		{"immutable-copy-modified-in-the-callee", mk(func(a *asm) {
+			a.op(opcode.PUSH2, opcode.NEWARRAY, opcode.SYSCALL)
+			a.raw(xid(sysFreeze, 0, 0)...)
+			load(a, 1, 0)
+		}), mk(func(a *asm) { a.op(opcode.DUP, opcode.PUSH0, opcode.PUSH1, opcode.SETITEM, opcode.RET) })},
+	}
+}
+
 // ---- the part ---------------------------------------------------------------------
 
 type xOut struct {
 	callers, callees, programs int
 	notStatic                  int64 // generated scripts rejected by IsScriptCorrect (must be 0)
-	maxScripts                 int   // most script contexts alive at once (self-check that the loader works)
 }
 
 func xscriptPart(s *stats, reps []int) (out xOut) {
@@ -293,25 +439,31 @@ func xscriptPart(s *stats, reps []int) (out xOut) {
 	out.callees, out.callers = len(callees), len(callers)
 	fixed := []loaded{{}, {script: otherScript(), hash: util.Uint160{2}}, {script: thirdScript(true), hash: util.Uint160{3}}, {script: thirdScript(false), hash: util.Uint160{4}}}
 	var notStatic, progs vk.Counter
-	boundsOf := func(script []byte) []bool {
-		b, ok := boundaries(script)
-		if !ok || scparser.IsScriptCorrect(script, nil) != nil {
-			notStatic.Inc()
-			return nil
+	count := func(tbl []loaded) map[util.Uint160][]bool {
+		by := loadedBounds(tbl)
+		for _, b := range by {
+			if b == nil {
+				notStatic.Inc()
+			}
 		}
-		return b
+		return by
 	}
+	specials := xSpecials()
+	s.r.Parallel(len(specials), func(i int) {
+		sp := specials[i]
+		w := newWalker()
+		tbl := append([]loaded{}, fixed...)
+		tbl[idxMain] = loaded{script: sp.main, hash: util.Uint160{1}, nefScript: sp.main, nefHash: util.Uint160{5}}
+		s.fullCheck("xscript", "special/"+sp.name, nil, sp.caller, deepBase, 20000, w, execOpts{mark: -1, tbl: tbl, boundsBy: count(tbl)}, false)
+		progs.Inc()
+		s.merge(w)
+	})
 	s.r.Parallel(len(callees), func(i int) {
 		ce := callees[i]
 		w := newWalker()
 		tbl := append([]loaded{}, fixed...)
-		tbl[idxMain] = loaded{script: ce.script(), hash: util.Uint160{1}}
-		by := map[util.Uint160][]bool{}
-		for _, l := range tbl {
-			b := boundsOf(l.script)
-			by[l.hash] = b
-			by[hash.Hash160(l.script)] = b // what a script loaded without an explicit hash reports
-		}
+		tbl[idxMain] = ce.loaded()
+		by := count(tbl)
 		part := "xscript"
 		if ce.leftover {
 			part = "xscript-leftover"
@@ -337,16 +489,25 @@ func xscriptPart(s *stats, reps []int) (out xOut) {
 	return
 }
 
-// loadedBounds: boundaries of every loadable script under both hashes it can report.
+// loadedBounds: boundaries of every loadable script under every hash it can report.
 func loadedBounds(tbl []loaded) map[util.Uint160][]bool {
 	by := map[util.Uint160][]bool{}
-	for _, l := range tbl {
-		b, ok := boundaries(l.script)
-		if !ok || scparser.IsScriptCorrect(l.script, nil) != nil {
+	add := func(script []byte, h util.Uint160) {
+		if script == nil {
+			return
+		}
+		b, ok := boundaries(script)
+		if !ok || scparser.IsScriptCorrect(script, nil) != nil {
 			b = nil
 		}
-		by[l.hash] = b
-		by[hash.Hash160(l.script)] = b
+		by[h] = b
+		by[hash.Hash160(script)] = b
+	}
+	for _, l := range tbl {
+		add(l.script, l.hash)
+		add(l.nefScript, l.nefHash)
 	}
 	return by
 }
+
+func binaryLE(x uint32) []byte { return []byte{byte(x), byte(x >> 8), byte(x >> 16), byte(x >> 24)} }
